@@ -158,7 +158,7 @@ class C08(Prop):
           '(depth <= 3, children with different row counts, MF / two-ratio adaptors as children) and bare MF adaptors x in-bounds flow x '
           'price of any sign in every accepted shape (scalar, per-slot vector, full matrix; every equivalent shape of the drawn price is '
           'exercised, a scalar also as np.float64 / 0-d ndarray, a vector also as a (1, n) row); 6 % of the prices at magnitude 1e3..1e6, 2 % at 1e-6; 6 % WindowDevice (leaf / in a DeviceSet; oracle only). integer-typed integer-valued flows with fractional prices (20% of leaves are base Device/PVDevice of that kind); price updated in place between calls. non-trivial: some non-zero price entry and some non-zero flow entry (trees: >= 2 rows)')
-  sizes = {'quick': 800, 'thorough': 12000}
+  sizes = {'quick': 800, 'thorough': 8000}
   assumptions = ['hess_indep is true by definition of the model (no price argument); that the implementation ignores p is observed by T2/oracle',
                  'numpy broadcasting of the price is modelled (Price.toMat / jMat), not verified: T2 + oracle with the three shapes',
                  'numerically differentiated Hessians (SDevice, TDevice) are compared only for n <= 3']
